@@ -517,8 +517,10 @@ Definition handle_announce (p : port) (d : inst_ds) (ti : Z) (m : message) (a : 
   if accepted then
     let p1 := port_with_fml p fml in
     let '(p2, o) :=
+      (* a faulty port only recovers through a clean peer delay exchange (repaired F26) *)
       if (pi_clock (p_identity p1) =? pi_clock (h_source h))
          && (pi_port (h_source h) <? pi_port (p_identity p1))
+         && negb (is_faulty (p_state p1))
       then set_forced (port_with_multiport p1 (Some 0)) PPassive
       else (p1, []) in
     let '(k, p3) := draw p2 in
